@@ -169,8 +169,11 @@ func (s *vStore) ListNodeWorkloads(_ context.Context, node string, _ map[string]
 	return out, nil
 }
 
-func (s *vStore) GetWorkloads(_ context.Context, ids []string) ([]*types.Workload, error) {
+func (s *vStore) GetWorkloads(ctx context.Context, ids []string) ([]*types.Workload, error) {
 	defer vGuard()()
+	if err := ctx.Err(); err != nil {
+		return nil, err // like a real client: a request under a dead context fails
+	}
 	if s.w != nil && s.w.fault("store.GetWorkloads") {
 		return nil, vErrInjected
 	}
